@@ -14,6 +14,7 @@ def check(rep):
                             only=lambda m, fn: m.rel in COMPILE_PATH or (m.rel == "utils/wraper_functions.py" and fn.name == "parse_source"),
                             floor=20, accumulating_only=True)
     ER.rule_mutable_defaults(ctx, rid="C11.NO-SHARED-DEFAULTS", modules=COMPILE_PATH | {"utils/wraper_functions.py"}, accumulating_only=True)
+    ER.rule_no_module_iterators(ctx, rid="C11.NO-ONE-SHOT-CONSTANTS")
     ER.rule_copy_protocol(ctx, rid="C11.COPY-IS-CURRENT")
     ER.rule_instance_only(ctx)
     ER.rule_installed_function(ctx)
